@@ -555,6 +555,14 @@ class Analysis:
             elif op == "Mul":
                 c = [a[0] * b[0], a[0] * b[1], a[1] * b[0], a[1] * b[1]]
                 r = (min(c), max(c))
+            elif op in ("Shl", "Shr"):
+                # the overflow of a shift is the shift amount reaching the width of the shifted type (the value may lose bits silently)
+                aty = None
+                x0 = t["ops"][0]
+                aty = (x0.get("place") or {}).get("ty") if x0.get("k") in ("copy", "move") else (x0.get("c") or {}).get("ty")
+                width = {"u8": 8, "i8": 8, "u16": 16, "i16": 16, "u32": 32, "i32": 32, "u64": 64, "i64": 64, "usize": 64, "isize": 64,
+                         "u128": 128, "i128": 128}.get(aty)
+                return (width is not None and 0 <= b[0] and b[1] < width), {"shift": b, "width": width, "type": aty}
             else:
                 return False, {"op": op}
             return (tr[0] <= r[0] and r[1] <= tr[1]), {"a": a, "b": b, "result": r, "type": ty}
